@@ -226,6 +226,13 @@ func inject(r *gen.Rand, v *spec.Version, s string, f func(d defect)) {
 			out[i] = k + ":" + bad
 			f(defect{s: mk(out), kind: "illegal-value", want: probe.EValue, pos: i, site: "elsewhere"})
 		}
+		// the element loses its value together with the colon ("AV"), or carries a value with a second colon
+		// ("AV:N:N"): the abbreviation is known and in place, what follows it is not one of its legal values
+		for _, raw := range []string{k, k + ":" + val + ":" + val, k + ":" + val + ":"} {
+			out := cp()
+			out[i] = raw
+			f(defect{s: mk(out), kind: "illegal-value-shape", want: probe.EValue, pos: i, site: "elsewhere"})
+		}
 		// repeated metric: adjacent, distant (end), with another legal value
 		for _, at := range []int{i + 1, len(el), r.Intn(len(el) + 1)} {
 			for _, dupVal := range []string{val, v.Metrics[m].Values[r.Intn(len(v.Metrics[m].Values))]} {
@@ -262,6 +269,24 @@ func inject(r *gen.Rand, v *spec.Version, s string, f func(d defect)) {
 			for _, at := range []int{i, len(el)} {
 				out := append(append(append([]string{}, el[:at]...), u+":"+val), el[at:]...)
 				d := defect{s: mk(out), kind: "unknown-abbreviation", pos: at}
+				if isV3 {
+					d.want, d.abv = probe.EInvalidAbv, u
+				} else {
+					d.want = orderErr
+					d.site = siteFor(at)
+				}
+				f(d)
+			}
+		}
+		// unknown abbreviation WITHOUT a colon ("XYZ"), and the empty abbreviation (":N"), inserted before element i / at the end
+		for _, raw := range []string{"XYZ", strings.ToLower(k), k + "Q", ":" + val, ":"} {
+			u, _, _ := strings.Cut(raw, ":")
+			if v.Index(u) >= 0 {
+				continue
+			}
+			for _, at := range []int{i, len(el)} {
+				out := append(append(append([]string{}, el[:at]...), raw), el[at:]...)
+				d := defect{s: mk(out), kind: "unknown-abbreviation-shape", pos: at}
 				if isV3 {
 					d.want, d.abv = probe.EInvalidAbv, u
 				} else {
